@@ -217,7 +217,13 @@ def typed_terms(tier: str) -> Dict[str, List[Any]]:
             if a is b:
                 continue
             sib += [('bin', 'and', a, b), ('bin', 'or', b, a), ('bin', 'and', ('bin', 'and', a, ('f', 'p')), ('not', b))]
-    return {'numbers': [('bin', '<', n, ('f', 'y')) for n in nums], 'booleans-depth1': bools, 'booleans-depth2': bool2, 'sibling-quantifiers': sib}
+    # legal but unusual spellings of number literals
+    spell = []
+    for t in ('1E5', '25E-1', '1e+5', '1E+5', '5.', '.5', '007', '0.50', '1e0', '12345678901234567890'):
+        k = ('tok', t)
+        spell += [('bin', '<', k, ('f', 'y')), ('bin', '=', ('f', 'x'), k), ('bin', 'in', ('f', 'x'), ('range', k, L(9), False, True)), ('bin', '>', ('idx', ('f', 'xs'), L(0)), ('bin', '*', k, ('fa', A, 'x'))),
+                  ('bin', 'in', ('f', 'y'), ('set', k, L(1)))]
+    return {'numbers': [('bin', '<', n, ('f', 'y')) for n in nums], 'booleans-depth1': bools, 'booleans-depth2': bool2, 'sibling-quantifiers': sib, 'number-spellings': spell}
 
 
 # ---------------------------------------------------------------------------------------------------------------
